@@ -352,10 +352,13 @@ func scenarios() []*mc.Scenario {
 			}
 			me, p := me, p
 			pb := p.pb
-			if probe.lanes >= 3 {
+			fb := [2]int{0, 0}
+			if probe.lanes >= 2 {
+				// several lane goroutines plus the exit signaller: bound the free choices as well
 				pb = [2]int{1, 2}
+				fb = [2]int{4, 6}
 			}
-			scs = append(scs, &mc.Scenario{Name: me.name + "/" + p.name, PB: pb, Main: func(w *mc.World) {
+			scs = append(scs, &mc.Scenario{Name: me.name + "/" + p.name, PB: pb, FB: fb, Main: func(w *mc.World) {
 				x := &world{w: w, started: map[int]int{}, lane: map[int]int{}, inLane: map[int]int{}, ended: map[int]bool{}}
 				p.body(x, me.mk(), w)
 			}})
@@ -395,7 +398,7 @@ func routing(c *seq.Ctx) {
 
 // minint: a call with the minimum integer as hash must run (on a lane in range), not crash the caller
 func minIntScenario() *mc.Scenario {
-	return &mc.Scenario{Name: "mline/slots=3/hash=MinInt", PB: [2]int{1, 2}, Main: func(w *mc.World) {
+	return &mc.Scenario{Name: "mline/slots=3/hash=MinInt", PB: [2]int{1, 2}, FB: [2]int{4, 6}, Main: func(w *mc.World) {
 		x := &world{w: w, started: map[int]int{}, lane: map[int]int{}, inLane: map[int]int{}, ended: map[int]bool{}}
 		e := execs()[4].mk()
 		if !strings.HasPrefix(execs()[4].name, "mline/slots=3") {
